@@ -1624,6 +1624,65 @@ func runeLoops(w *World, f *ssa.Function, ctx *symCtx, runeOf func(v ssa.Value) 
 				cands = append(cands, phi)
 			}
 		}
+		// the rune kept in a field of a small state struct: tested as state.f, read by a method of the
+		// package that stores what it read into that very field (`la.advance()` for `lc, line = next(line)`)
+		for b := range body {
+			for _, in := range b.Instrs {
+				ld, ok := in.(*ssa.UnOp)
+				if !ok || ld.Op != token.MUL {
+					continue
+				}
+				fa, ok := ld.X.(*ssa.FieldAddr)
+				if !ok {
+					continue
+				}
+				var stepBlocks []*ssa.BasicBlock
+				for sb := range body {
+					for _, sin := range sb.Instrs {
+						c, isC := sin.(*ssa.Call)
+						if !isC {
+							continue
+						}
+						h := c.Call.StaticCallee()
+						if h == nil || h.Blocks == nil || h.Pkg != f.Pkg {
+							continue
+						}
+						for i, a := range c.Call.Args {
+							if a != fa.X || i >= len(h.Params) {
+								continue
+							}
+							for _, hb := range h.Blocks {
+								for _, hin := range hb.Instrs {
+									st, isSt := hin.(*ssa.Store)
+									if !isSt {
+										continue
+									}
+									hfa, isFA := st.Addr.(*ssa.FieldAddr)
+									if !isFA || hfa.X != ssa.Value(h.Params[i]) || hfa.Field != fa.Field || hb != h.Blocks[0] {
+										continue
+									}
+									if rc, consumes := runeOf(st.Val); rc != nil && consumes {
+										stepBlocks = append(stepBlocks, sb)
+									}
+								}
+							}
+						}
+					}
+				}
+				fed := len(stepBlocks) > 0 && len(l.Latches) > 0
+				for _, lt := range l.Latches {
+					dom := false
+					for _, sb := range stepBlocks {
+						dom = dom || sb == lt || sb.Dominates(lt)
+					}
+					fed = fed && dom
+				}
+				if fed {
+					cands = append(cands, ld)
+					readers = append(readers, stepBlocks...)
+				}
+			}
+		}
 		ll := lexLoop{pos: l.Header.Instrs[0].Pos(), consumes: len(l.Latches) > 0}
 		for _, lt := range l.Latches {
 			dom := false
